@@ -347,3 +347,20 @@ def shrink(case):
 
 
 PREDICATES = {}
+
+MANIFEST = dict(
+    text=('Sub-check C01p (rule parser, "every rule syntax flavour"): Coq theorems, closed under the global context, for '
+          'EVERY interpretation of the regex class \\w that excludes the delimiters: C01_parser_print_parse_roundtrip '
+          '(every abstract rule written in any of the ten wildcard flavours with either delimiter pair parses back to '
+          'exactly its segments), C01_parser_terminates (the parser never runs out of fuel on ANY text), '
+          'C01_parse_rule_of_printed_rule / C01_parse_rule_flavour_independent (Route.parse_rule depends only on the '
+          'abstract rule, not on the spelling) and C01_rule_text_to_pat (its result is exactly the [pat] the router '
+          'theorems speak about).  Models coq/model/RuleParser.v + ParseRule.v tied to Parser/SymStream/'
+          'Route.parse_rule by correspondence on printed rules, their mutations and random delimiter-rich strings.'),
+    note=('Python re is re-implemented as scanners (six regular expressions); FilterFactory.make_filter failures '
+          '(unknown filter, uncompilable mask) are outside the model; a path filter directly followed by another '
+          'wildcard takes the rest of the rule TEXT as its argument and is therefore spelling-dependent by '
+          'construction - excluded by segs_ok and by the oracle.'),
+    technique='Coq proof (per-flavour scanner lemmas, induction over segments) + parser correspondence',
+    design_ref='DESIGN.md section 0.2 (sub-checks), section 4 C01 (rule parser)',
+)
